@@ -98,6 +98,8 @@ func openSysDB(dir string, o sysOpts) (*badger.DB, error) {
 		WithNumMemtables(8).WithBlockSize(64).WithMetricsEnabled(false).WithCompactL0OnClose(false)
 	if !o.InMemory {
 		opt = opt.WithValueThreshold(o.VThreshold)
+	} else {
+		opt = opt.WithValueThreshold(1024) // the in-memory value limit (default 1 MiB exceeds the batch limit of a 1 MiB memtable)
 	}
 	if len(o.EncKey) > 0 {
 		opt = opt.WithEncryptionKey(o.EncKey).WithIndexCacheSize(1 << 20).WithBlockCacheSize(1 << 20)
